@@ -236,7 +236,7 @@ func runC04(c *ctx) error {
 	deactN, recN := 0, 0
 	for i := 0; i < n; i++ {
 		d := world.NewDID(env.kp, env.tb, env.rng, world.SHA256)
-		o := world.GenOpts{MinLen: 1, MaxLen: 7, EndDeactivate: 60, TimeDelta: env.dl, BadDeltas: i%3 == 0, RecoverOldUpd: true}
+		o := world.GenOpts{MinLen: 1, MaxLen: 7, EndDeactivate: 60, TimeDelta: env.dl, BadDeltas: i%3 == 0, RecoverOldUpd: true, NonMonotone: i%4 == 3}
 		evs := d.GenEvents(o)
 		base := len(evs)
 		// extension: arbitrary later operations, also validly signed with every earlier key
